@@ -186,3 +186,24 @@ def seg_sql(seg, db="chan"):
     for e, loops in flat_events(seg):
         if e["k"] == "sql" and e["db"] == db:
             yield e, loops
+
+
+def each_event(model, entries, kinds=None):
+    """every event object of the given entries exactly once (events are shared
+    between paths that fork after them, and loop alternatives between all
+    continuations): yields (path, event, loops)"""
+    seen = set()
+    for en in entries:
+        for p in model.paths(en):
+            stack = [(p.events, ())]
+            while stack:
+                events, loops = stack.pop()
+                for e in events:
+                    if id(e) in seen:
+                        continue
+                    seen.add(id(e))
+                    if kinds is None or e["k"] in kinds:
+                        yield p, e, loops
+                    if e["k"] == "loop":
+                        for alt in e["alts"]:
+                            stack.append((alt["events"], loops + (e,)))
